@@ -513,7 +513,7 @@ Inv_C05_CoOwned ==
     (ObjReq /\ Teardown(PR) /\ W.ev # "Delete")
     => /\ W.ev = "MergePatch"
        /\ PR.unc[W.key].valid /\ ~IsCtrl(PR, PR.unc[W.key].o) /\ IsOwn(PR, PR.unc[W.key].o)
-       /\ ~W.args.patch.other /\ W.args.patch.rv = ""
+       /\ ~W.args.patch.other
        /\ W.args.patch.setsOwners
        /\ (PR.strategy = "native" => W.args.patch.owners = RemoveOwnerL(PR.oid, PR.ouid, PR.unc[W.key].o.owners))
        /\ W.res = "ok" =>
